@@ -71,6 +71,9 @@ func sqlCaseExempt(s string) []bool {
 // sqlCaseSites: seeds whose verdict or fingerprint hinges on one of the
 // case-folding sites. All 2^k masks are tried for k <= 12 letters.
 var sqlCaseSites = []string{
+	"1 collate nocase union select 1", "a collate rtrim or 1", "a collate binary or 1", "a collate posix union select 1", "1 collate unicode union select 1", "a collate c or 1",
+	"1 or 1.e(1)=1", "1 or 1e(1)=1", "1.e1(1) or", "1 or 0x(1)", "1d(1) or 1", "1 or .e(1)",
+	"1 sounds like (select 1)", "a not in boolean mode or 1", "fetch first 1 rows only", "sys.stragg(1) or", "exec xp 'a'", "exec sp_a 'b'",
 	"1 union select 1", "1 union all select 1", "1 or 1=1", "1 and 1", "1 xor 1", "1 mod 1 or", "1 div 1 --", "a like b or", "1 not like 2 or 1", "1 is not null or",
 	"1 and not 1", "1 or not(1)", "not 1 or", "select not 1", "1 in (1) or", "a in (1)", "a not in (1)", "1 in boolean mode", "select like(1)", "a not like(b)",
 	"user() or", "user(1)", "user_id()", "user_name()", "database()", "password(1)", "current_user()", "current_date()", "current_time()", "current_timestamp()", "localtime()", "localtimestamp()",
@@ -158,7 +161,7 @@ func c10() *core.Check {
 		if tier == "thorough" {
 			nl = 300000
 		}
-		mixes = append(mixes, Mix{Gen: "longtok", N: nl})
+		mixes = append(mixes, Mix{Gen: "longtok", N: nl}, Mix{Gen: "qualified"}, Mix{Gen: "gluelit"})
 		return append(us, planMix(sqlDomain, mixes)...)
 	}
 	return &core.Check{
@@ -262,6 +265,8 @@ func c10() *core.Check {
 
 // htmlCaseSites: seeds hinging on each HTML normalisation site.
 var htmlCaseSites = []string{
+	"<a xmlns:x=y x:href=javascript:x>", "<svg xmlns:q=x><a q:href=data:x>", "<a x:href=java>", "<set attributename=fill to=java>", "<p><plaintext><a href=java>", "<plaintext><svt>", "<meta content=\"0;url=java\">",
+	"</z a=`x`>", "<z x=\"<svt>\">", "</q><svt>", "<j k=`>", "<zz y='<xss>'>",
 	"<script>", "<iframe src=x>", "<embed>", "<object>", "<meta>", "<link>", "<style>", "<applet>", "<base>", "<frameset>", "<noscript>", "<isindex>", "<svt>", "<xsl>", "<xml>", "<xss>", "<import>", "<vmlframe>", "<listener>", "<handler>", "<comment>",
 	"<a onclick=x>", "<a onerror=x>", "<a onresize=x>", "<a onzoom=x>", "<a onpointerenter=x>", "x onmouseover=y", "x' onload=y", "<a style=x>", "<a filter=x>", "<a xmlns=x>", "<a xlink=x>", "<a datasrc=x>", "<a dataformatas=x>",
 	"<a href=javascript:x>", "<a href=vbscript:x>", "<a href=data:x>", "<a href=view-source:x>", "<a src=java>", "<form action=javascript:x>", "<a xlink:href=data:x>", "<a by=data:x>", "<a to=java>", "<a from=vbscript:>", "<a poster=data:>",
@@ -289,6 +294,7 @@ func c11() *core.Check {
 		if tier == "thorough" {
 			mixes = []Mix{{Gen: "corpus"}, {Gen: "bytes"}, {Gen: "trunc"}, {Gen: "atoms", Dict: "htmlfull", K: 3}, {Gen: "seq", Dict: "htmlfull", N: 2500000}, {Gen: "mut", Dict: "htmlfull", N: 2000000}, {Gen: "novel", Dict: "htmlfull", N: 1000000}, {Gen: "g04", N: 2500000}}
 		}
+		mixes = append(mixes, Mix{Gen: "attrvals"})
 		return append(us, planMix(htmlDomain, mixes)...)
 	}
 	hasCData := func(s string) bool {
